@@ -521,3 +521,8 @@ RULES = [
     Rule("C06.E12", lambda ctx: __import__("sa.mypyx", fromlist=["x"]).cross_check(ctx, [f"{MT}.MazeTokenizerModular.to_tokens"], "C06.E12"), floor=1,
          doc="thorough: call graph over-approximates mypy's type-resolved edges on the to_tokens closure", tier="thorough"),
 ]
+
+from sa import dims as _dims  # noqa: E402
+
+RULES.append(Rule("C06.AX", _dims.make_rule("C06", "C06.AX"), floor=1,
+                  doc="axis-extent agreement: coordinate components are bounded by the extent of their own axis (E13)"))
